@@ -17,9 +17,9 @@ P = {
  "C07": ("LibTrace", "TLA+ spec (RFC4648: Encode/Region/KeyOf) + TLC trace validation of DecodeSecret and spelling groups on every entry point", "5/C07"),
  "C05": ("LibTrace", "TLA+ spec (RFC6287: Msg layout, EffCfg from the suite name; Lib: GenOCRAExpect) + TLC trace validation of recorded GenerateOCRA calls; message observed byte for byte through the HMAC hook", "5/C05"),
  "C06": ("LibTrace", "TLA+ spec (Lib: ValOCRAExpect = iff with generation) + TLC trace validation of recorded ValidateOCRA calls (edits, same-value strings, nearest admissible neighbours)", "5/C06"),
- "C08": ("LibTrace", "TLA+ spec with stream state (usedIv: consumed intervals of the substituted crypto/rand.Reader) + TLC trace validation of recorded RandomSecret histories, sequential and concurrent", "5/C08"),
+ "C08": ("LibTrace", "TLA+ spec with stream state (usedIv: consumed intervals of the substituted crypto/rand.Reader) + TLC trace validation of recorded RandomSecret histories, sequential and concurrent (concurrent calls held at a rendezvous inside the substituted source)", "5/C08"),
  "C09": ("Taint", "TLA+ information-flow transition system (spec/Taint.tla) instantiated with the SSA data-flow graph re-extracted from the current tree (native, js/wasm, REST); TLC computes the taint fixpoint and checks NoLeak + non-vacuity", "5/C09"),
- "C10": ("LibTrace", "TLA+ spec: reply relation total over values/errors only (Returned) for every exported operation + TLC trace validation of calls with extreme arguments under recover() and a watchdog", "5/C10"),
+ "C10": ("LibTrace", "TLA+ spec: reply relation total over values/errors only (Returned) for every exported operation + TLC trace validation of calls with extreme arguments under recover() and a watchdog, in both build configurations (native; harness compiled for js/wasm and run under Node for the functions exported only there)", "5/C10"),
  "C11": ("Pools", "TLA+ model of the pooled-buffer protocol (spec/Pools.tla) model-checked exhaustively (2-3 callers x adversary x GC); TLC-generated behaviours replayed on the real code through scheduler gates and validated by PoolsTrace; free-running race-detector tier validated against the sequential specification", "5/C11"),
  "C12": ("LibTrace", "TLA+ frame conditions (FrameFails: argument memory incl. spare capacity, defaults, registry, retained results) + TLC trace validation of recorded memory snapshots", "5/C12"),
  "C14": ("LibTrace", "TLA+ spec (RFC6287: SuiteUsable, Admissible) + TLC trace validation of the length grid 0..140 per field and the usability grid through Validate/Generate/ValidateOCRA", "5/C14"),
@@ -29,7 +29,7 @@ P = {
  "C13": ("LibTrace", "TLA+ spec (Lib: VerdictWellFormed, Discloses) + TLC trace validation of every failing call", "5/C13"),
  "C18": ("RestTrace", "TLA+ spec (spec/RestTrace.tla: per-endpoint request->library mapping composed with Lib; spec/Rest.tla small-scope model) + TLC validation of every exchange recorded from the real server binary on loopback (sequential, kept-alive and fresh connections, 8 concurrent clients)", "5/C18"),
  "C19": ("RestTrace", "TLA+ spec (spec/Rest.tla: bounded work, status classes, Received ~> Responded under fairness, model-checked with its unguarded negative twin; spec/RestTrace.tla) + TLC validation of fault sequences interleaved with probes against the real server binary, 3 s deadline per exchange, liveness probe at the end", "5/C19"),
- "C20": ("WasmTrace", "TLA+ spec (spec/WasmTrace.tla: JS argument-marshalling layer composed with the native Lib operators; spec/Wasm.tla small-scope model incl. export-table identity) + TLC validation of every call made under Node to the freshly built otp.wasm, via globalThis and via the JS package's export object", "5/C20"),
+ "C20": ("WasmTrace", "TLA+ spec (spec/WasmTrace.tla: JS argument-marshalling layer composed with the native Lib operators; spec/Wasm.tla small-scope model incl. export-table identity) + TLC validation of every call made under Node to the freshly built otp.wasm, via globalThis and via the JS package's export object; plus LibTrace validation of the wasm-only Go functions behind the binding, called from the harness compiled for js/wasm", "5/C20"),
 }
 
 def main():
